@@ -12,8 +12,12 @@ Bind:   (code -> spec) real rod elements (Quaternion and R12 interpolation, disp
         g_S, g_S_q (all interpolations incl. SE3).  TLC recomputes every record.
         Float supplements on the same rods: q_dot is linear in u and q_dot_u its matrix; M symmetric positive semidefinite,
         E_kin = u^T M u / 2, gyroscopic forces power-free.
-Not covered (restriction): internal-force / compliance / constraint Jacobians and everything else that is integrated with Gauss points
-        (irrational abscissae), the SE(3) interpolation (transcendental).
+        The element's weak form (f_int_el / f_int_el_qe of the displacement-based rods, W_c_el la_c / Wla_c_el_qe / c_el / c_el_qe of
+        the mixed rods) is a sum over quadrature points of expressions in those quantities; it is recorded from rods whose abscissae
+        are rational (the genuine one-point rule of the linear elements; for the quadratic elements rational abscissae are written
+        into the rod's quadrature tables, which are data, and the reference strains are recomputed by the rod) and recomputed by TLC.
+Not covered (restriction): the internally constrained rods (g_el, W_g_el), the SE(3) interpolation (transcendental), a_P derivatives;
+        the weak form is not checked AT the irrational Gauss abscissae of the quadratic elements.
 """
 from __future__ import annotations
 
@@ -169,6 +173,111 @@ def section_records(ctx, rod, interp, rng, quats, q, u, xi, Br, records, wheres,
     return len(records) - n0
 
 
+# TLC's integers are 32 bit and the weak form multiplies three normalised quantities: for the quadratic elements the substituted
+# abscissae are element nodes (the interpolated quaternion is then a nodal one; N' still mixes all nodes); the linear elements keep
+# their genuine one-point rule (midpoint, N = (1/2, 1/2))
+RATIONAL_POINTS = {2: ([0.0, 0.5], [0.5, 1.0]), 3: ([0.0, 0.5, 1.0], [0.0, 0.5, 1.0])}
+
+
+def rationalise_quadrature(rod, mixed):
+    """The Gauss rules with more than one point have irrational abscissae.  Points and weights are data of the rod: the abscissae are
+    replaced by rational ones (weights kept), the shape-function tables and the reference strains are recomputed with the rod's own
+    routines.  The one-point rule (midpoint) is left as it is."""
+    nqp = rod.nquadrature
+    if nqp == 1:
+        return False
+    if nqp not in RATIONAL_POINTS:
+        raise tlc.MachineryError(f"no rational substitute for a {nqp}-point rule")
+    for el in range(rod.nelement):
+        a, b = rod.element_interval(el)
+        for i, s_ in enumerate(RATIONAL_POINTS[nqp][el % 2]):
+            xi = float(a + (b - a) * s_)
+            rod.qp[el, i] = xi
+            N, N_xi = rod.basis_functions_r(xi, el)
+            rod.N_r[el, i] = np.asarray(N).ravel(); rod.N_r_xi[el, i] = np.asarray(N_xi).ravel()
+            N, N_xi = rod.basis_functions_p(xi, el)
+            rod.N_p[el, i] = np.asarray(N).ravel(); rod.N_p_xi[el, i] = np.asarray(N_xi).ravel()
+            if mixed:
+                rod.N_la_c[el, i] = np.asarray(rod.basis_functions_la_c(xi, el)).ravel()[: rod.N_la_c.shape[2]]
+    rod._eval_cache.clear(); rod._deval_cache.clear()
+    rod.set_reference_strains(rod.Q)
+    if mixed:
+        rod._c_la_c_coo()
+    return True
+
+
+def weak_records(ctx, rod, interp, mixed, rng, q, records, wheres, where):
+    """internal forces (displacement based) / W_c la_c and compliance residual (mixed) of every element and their q_e-Jacobians"""
+    nn = rod.nnodes_element_r
+    nq, nu = rod.nq_element, rod.nu_element
+    n0 = len(records)
+    Ei = np.diag(np.asarray(rod.material_model.C_n)); Fi = np.diag(np.asarray(rod.material_model.C_m))
+    ucol = {}
+    for j in range(nu):
+        ucol[where_is(rod, j, "u")] = j
+    order = [ucol[(n, c)] for n in range(1, nn + 1) for c in range(1, 7)]
+    for el in range(rod.nelement):
+        qe = q[rod.elDOF[el]].copy()
+        P = [qe[rod.nodalDOF_element_p[n]] for n in range(nn)]
+        ok = True
+        qps = []
+        if mixed:
+            nla = rod.nnodes_element_la_c
+            la_ce = np.array([float(rng.randint(-2, 3)) for _ in range(rod.nla_c_element)])
+        for i in range(rod.nquadrature):
+            N = np.asarray(rod.N_r[el, i], dtype=float)
+            if interp == "quat":
+                Pc = sum(N[n] * P[n] for n in range(nn))
+                if Pc @ Pc < 0.2:
+                    ok = False
+            g = dict(N=fv(N), Nxi=fv(rod.N_r_xi[el, i]), Np=fv(rod.N_p[el, i]), Npxi=fv(rod.N_p_xi[el, i]), w=fr(rod.qw[el, i]), J=fr(rod.J[el, i]),
+                     Gam0=fv(rod.B_Gamma0[el, i]), Kap0=fv(rod.B_Kappa0[el, i]), n=fv(np.zeros(3)), m=fv(np.zeros(3)), Nla=[[1, 1]])
+            if mixed:
+                Nla = np.asarray(rod.N_la_c[el, i], dtype=float).ravel()
+                lac = sum(Nla[n] * la_ce[rod.nodalDOF_element_la_c[n]] for n in range(nla))
+                g.update(n=fv(lac[:3]), m=fv(lac[3:]), Nla=fv(Nla))
+            qps.append(g)
+        if not ok:
+            continue
+        base = dict(kind="W", interp=interp, form="mixed" if mixed else "db", Ei=fv(Ei), Fi=fv(Fi), N=qps[0]["N"], Nxi=qps[0]["Nxi"], qps=qps,
+                    r=[fv(qe[rod.nodalDOF_element_r[n]]) for n in range(nn)], P=[fv(p) for p in P],
+                    v=[fv(np.zeros(3))] * nn, om=[fv(np.zeros(3))] * nn, Br=fv(np.zeros(3)))
+        if mixed:
+            if rod.nmixed != 6:
+                raise tlc.MachineryError("mixed rod with constrained stress components: not handled")
+            f = np.asarray(rod.W_c_el(qe.copy(), el)) @ la_ce
+            f_q = np.asarray(rod.Wla_c_el_qe(qe.copy(), la_ce.copy(), el)).reshape(nu, nq)
+            c = np.asarray(rod.c_el(qe.copy(), la_ce.copy(), el)).ravel()
+            c_q = np.asarray(rod.c_el_qe(qe.copy(), la_ce.copy(), el)).reshape(len(c), nq)
+            corder = [int(rod.nodalDOF_element_la_c[n][k]) for n in range(nla) for k in range(6)]
+        else:
+            f = np.asarray(rod.f_int_el(qe.copy(), el)).ravel()
+            f_q = np.asarray(rod.f_int_el_qe(qe.copy(), el)).reshape(nu, nq)
+        ks = list(range(nq))
+        if not ctx.thorough:
+            ks = sorted(rng.sample(ks, min(len(ks), 6)))
+        for k in ks:
+            node, comp = where_is(rod, k, "q")
+            rec = dict(base, dk="q", dnode=node, dcomp=comp)
+            outs = dict(f=f[order], df=f_q[order, k])
+            if mixed:
+                outs.update(c=c[corder], dc=c_q[corder, k])
+            off = []
+            for name, val in outs.items():
+                rec["o_" + name] = fv(val)
+                rs = resid(val)
+                if rs is not None:
+                    off.append((name, rs))
+            rec["has"] = list(outs)
+            rec["id"] = len(records) + 1
+            records.append(rec)
+            wheres[rec["id"]] = dict(where, element=int(el), direction=f"q_e[{k}] = node {node} comp {comp}", quadrature_points=[float(x) for x in rod.qp[el]],
+                                     **({"la_ce": la_ce.tolist()} if mixed else {}))
+            if off:
+                wheres[rec["id"]]["_off_lattice"] = off
+    return len(records) - n0
+
+
 def node_records(ctx, rod, rng, q, u, records, wheres, where):
     t = 0.0
     qd = np.asarray(rod.q_dot(t, q.copy(), u.copy()))
@@ -246,12 +355,22 @@ def run(ctx):
     counts = {}
     variants = [("Quaternion", "quat", False, 1), ("Quaternion", "quat", True, 2), ("R12", "r12", False, 1), ("R12", "r12", True, 2),
                 ("Quaternion", "quat", False, 2), ("R12", "r12", False, 2), ("SE3", None, False, 1)]
-    nstates = 3 if ctx.thorough else 2
+    nstates = 6 if ctx.thorough else 2
     nxi = 4 if ctx.thorough else 2
+    from .c05 import oct_quats
+    small_quats = oct_quats()
+    substituted = []
     for (interp_name, interp, mixed, degree) in variants:
         name = f"{interp_name}[p={degree},mixed={mixed}]"
         try:
             rod = make_rod(interp_name, mixed, degree, rng)
+            rod_w = None
+            if interp is not None:
+                rod_w = make_rod(interp_name, mixed, degree, rng)      # a second rod of the family carries the weak-form records
+                if rationalise_quadrature(rod_w, mixed):
+                    substituted.append(name)
+        except tlc.MachineryError:
+            raise
         except Exception as ex:
             ctx.violation(f"{name}:build:{type(ex).__name__}", f"building the rod {name} raised {type(ex).__name__}: {ex}", {"rod": name})
             continue
@@ -264,6 +383,9 @@ def run(ctx):
                 inertia_checks(ctx, rod, q, u, where)
                 if interp is None:
                     continue
+                qw_, _ = rod_state(rod_w, rng, small_quats)        # TLC's integers are 32 bit: the weak form squares the denominators once more
+                n = weak_records(ctx, rod_w, interp, mixed, rng, qw_, records, wheres, dict(rod=name, q=qw_.tolist()))
+                counts[name + ":weak-form"] = counts.get(name + ":weak-form", 0) + n
                 xis = [XIS[0], XIS[4]][: 1 + si % 2] + rng.sample(XIS[1:4] + XIS[5:], nxi)
                 for xi in xis:
                     Br = iv(rng, -1, 2)
@@ -283,8 +405,10 @@ def run(ctx):
     e1 = copy.deepcopy(next(r for r in records if r["kind"] == "X" and "dKap" in r["has"])); e1["id"] = 0; e1["o_dKap"][0][0] += 977; tests.append(e1)
     e2 = copy.deepcopy(next(r for r in records if r["kind"] == "X" and "dJP" in r["has"])); e2["id"] = -1; e2["o_dJP"][-1][0][0] += 977; tests.append(e2)
     e3 = copy.deepcopy(next(r for r in records if r["kind"] == "K" and r["dk"] == "u")); e3["id"] = -2; e3["o_dqd"][1][0] += 977; tests.append(e3)
+    e4 = copy.deepcopy(next(r for r in records if r["kind"] == "W" and r["form"] == "db")); e4["id"] = -3; e4["o_df"][-1][0] += 977; tests.append(e4)
+    e5 = copy.deepcopy(next(r for r in records if r["kind"] == "W" and r["form"] == "mixed")); e5["id"] = -4; e5["o_dc"][0][0] += 977; tests.append(e5)
     bad, rts = batch_validate_parallel(ctx, "RodKinematics", tests + records, {"Mode": '"trace"', "Impl": '"intended"', "Thin": "TRUE"}, "rk_trace")
-    for tid in (0, -1, -2):
+    for tid in (0, -1, -2, -3, -4):
         if bad.pop(tid, None) is None:
             raise tlc.MachineryError("self-test failed: a corrupted rod record was accepted by the trace specification")
     for rid, w in wheres.items():
@@ -304,13 +428,16 @@ def run(ctx):
     ctx.log(f"[C11] wall: identities {t_id:.0f}s, records {t_rec - t_id:.0f}s, trace validation {_t.time() - ctx.t0 - t_rec:.0f}s")
     ctx.log(f"[C11] identities: {r_id.distinct} lattice cases; {len(records)} records validated by TLC {counts}; {len(bad)} rejected")
     ctx.coverage = {"states": r_id.distinct + sum(r.distinct for r in rts), "transitions": max(r_id.generated + sum(r.generated for r in rts), 1), "traces_validated_against_impl": len(records),
-                    "records": counts, "samples": [{"where": {k: v for k, v in wheres[1].items() if k != "_off_lattice"}, "has": records[0]["has"]}],
+                    "records": counts, "rational_quadrature_substituted_for": substituted, "samples": [{"where": {k: v for k, v in wheres[1].items() if k != "_off_lattice"}, "has": records[0]["has"]}],
                     "rule": "7 rod variants (Quaternion / R12 / SE3 interpolation, displacement-based / mixed, degree 1 / 2, two elements) x rational states with "
                             "non-unit integer nodal quaternions x parameters xi (nodes and in between) x coordinate directions of q_e and u_e; node records "
                             "for every component of the nodal quaternion and angular velocity"}
     ctx.assumptions = ["shape-function values N, N' are taken from the rod's basis_functions_r (mesh layer decided under C13)",
                        "claimed for the rational part only: cross-section kinematics and strain measures at rational xi (Quaternion and R12 interpolation), "
-                       "kinematic equation and unit-quaternion condition; Gauss-integrated quantities and the SE(3) interpolation are not covered",
+                       "kinematic equation and unit-quaternion condition, weak form at rational quadrature abscissae; the SE(3) interpolation and the internally "
+                       "constrained rods are not covered",
+                       "the derivative routines treat quadrature abscissae and weights as data: for the quadratic elements rational abscissae (element nodes) are "
+                       "written into the rod's tables and the reference strains recomputed with the rod's own set_reference_strains",
                        "floats become rationals by Fraction.limit_denominator(2^20); TLC compares exactly"]
 
 
